@@ -279,6 +279,8 @@ impl XmlReader {
             return Ok(RustDocument::empty());
         };
 
+        // `./types.xsd` is the sibling `types.xsd`: the files are registered by their names
+        let schema_location = schema_location.strip_prefix("./").unwrap_or(schema_location);
         let file = files
             .map
             .get(schema_location)
